@@ -102,8 +102,8 @@ PROPS = {
         "engines": [{"name": "handler", "quick": 60, "thorough": 1500, "oracle_tag": "C04"}],
         "constants": ["LOOKUP_TIMEOUT_ns", "ENDGAME_TIMEOUT_ns"],
         "trusted": COMMON_TRUST + ["transaction ids, action ids and token secrets are symbolic in the model and canonicalised by order of first appearance on both sides (C19/C06 prove what the symbols stand for)", "tokio timers fire at their deadline rounded up to the 1 ms tick (the observed instant is an oracle input of the `fire` op)"],
-        "assumptions": [],
-        "level_note": "PARTIAL: proved — immediate close without good nodes; answers and query timeouts never end a search (only the end-game timer, scheduled 1.5 s after nothing was outstanding); every query gets a 1.5 s timeout entry; timer pops in deadline order, cancel removes exactly its entry. Not proved in Lean — the quantitative upper bound (1.5 s per node told about + 3 s), decided by the [C04] oracles on silent/lossy/chain/hostile networks (tie)",
+        "assumptions": ["timer contract: whenever the handler runs, no pending timer entry is overdue by more than J (tokio: < 1 ms); hypothesis PunctualRun of C04_upper"],
+        "level_note": "proved — immediate close without good nodes; answers and query timeouts never end a search (only the end-game timer, scheduled 1.5 s after nothing was outstanding); every query gets a 1.5 s timeout entry; timer pops in deadline order, cancel removes exactly its entry; and, under the timer contract as an explicit hypothesis of the run (PunctualRun J: no pending entry overdue by more than J when the handler runs), the quantitative bound for every interleaving and any number of concurrent searches: a search still open at `now` satisfies now <= T0 + (1.5 s + J)(1 + k) + 1.5 s + 2J, k = nodes queried after the first round, each named in an accepted answer (C04_deadline_invariant, C04_upper, C04_silent, C04_later_rounds_query_named_nodes). PARTIAL only in that the timer contract of tokio is assumed; the [C04] oracles on silent/lossy/chain/hostile networks with failing sends measure the real closing times",
     },
     "C05": {
         "engines": [{"name": "handler", "quick": 60, "thorough": 1500, "oracle_tag": "C05"}],
